@@ -4,7 +4,7 @@ from pathlib import Path
 LIBS = ["libavoid"]
 HARNESS = "harness/c10.cpp"
 DRIVER_MODE = "c10"
-LEAN_MODULES = ["AdaptaVerif.Props.C10", "AdaptaVerif.Props.C10Tie", "AdaptaVerif.Props.C10Region"]
+LEAN_MODULES = ["AdaptaVerif.Props.C10", "AdaptaVerif.Props.C10Tie", "AdaptaVerif.Props.C10Region", "AdaptaVerif.Props.C10Segs"]
 # COLA_ASSERT throws vpsc::CriticalFailure instead of calling abort() (see harness/c11.cpp)
 EXTRA_FLAGS = ["-DUSE_ASSERT_EXCEPTIONS"]
 LEVEL = "translation_validation"
@@ -26,11 +26,30 @@ LEVEL_TEXT = ("Theorems for all regions / parameters / solver outputs about (a) 
               "segments exactly (Rat, doubles rounded as IEEE), on every run and every generator class; 14 scalar kernels of "
               "NudgingShiftSegment and the id / weight constants are regenerated from orthogonal.cpp by cpp2lean on every run and "
               "proved equal to the hand models (Props/C10Tie). The routes the library returns are checked by Lean checkers with "
-              "soundness theorems (shared collinear stretch, distance of parallel overlapping segments, checkpoints).")
+              "soundness theorems (shared collinear stretch, distance of parallel overlapping segments, checkpoints). "
+              "Segment construction (builder N1): Model/NudgeSegs.lean is an executable model of buildOrthogonalNudgingSegments (which "
+              "route segments become shift segments, fixed or not, finalSegment / endsInShape / singleConnectedSegment, the "
+              "containment tests of first / last segments against the obstacle rectangles and the +-15 band - imported from "
+              "Model/FinalSegLimits.lean -, sBend / zBend, checkpoint handling) and of buildOrthogonalChannelInfo's sweep (closed "
+              "form of the four looks the sweep takes at a segment). Theorems (Props/C10Segs) for all routes / obstacles / options: "
+              "a segment carrying a checkpoint is fixed, checkpoints on adjoining segments bound the limit on their own side, first / "
+              "last segments are fixed or limited to the end shapes' extent resp. +-15, limits contain the position, the sweep only "
+              "tightens and every bound is a side of an obstacle facing the segment, the construction commutes with reversing a "
+              "connector (s-bend <-> z-bend) and with transposition. Tie: the state at the start of EVERY pass (display routes, "
+              "checkpoint cache, obstacles, options; read through the virtual progress callback) is printed, the model's segment "
+              "list is compared with the union of the dumped regions of that pass exactly (all flags, checkpoints, limits; "
+              "linesort's merges are replayed through a model of mergeWith).")
 LEVEL_NOTE = ("Modelled per region and tied through the hook: variable creation, constraint generation, retry / unifying loop, "
               "write-back; the VPSC solver itself is an oracle of the model (its answers are taken from the dump; that they satisfy "
-              "the constraints is C01/C02 and is re-checked here on the written positions: [region-sep]). NOT modelled: which "
-              "segments exist and their channel limits (buildOrthogonalNudgingSegments / buildOrthogonalChannelInfo), the point "
+              "the constraints is C01/C02 and is re-checked here on the written positions: [region-sep]). Which segments exist and "
+              "their limits is modelled per pass (Model/NudgeSegs.lean) and tied; there the scan line is modelled in closed form (no "
+              "event queue), scan-line nodes with EQUAL position are ordered by heap address in the C++ (CmpNodePos): the model "
+              "computes both resolutions and a dumped limit must lie between them (they coincide in all but a handful of cases per "
+              "run, counted as segtie.address-tie); the checkpointsOnRoute cache, hasFixedRoute(), routingBox(), "
+              "polygon().offsetBoundingBox(0), junction position()/positionFixed() are read through the public API at the pass start "
+              "and trusted. Route points shared by two parallel segments of one connector (a display route folding back onto "
+              "itself) are written twice by the library; the region model's write-back check is suspended for such cases (counted: "
+              "finding.diagonal-after-shared-point, see reports/bN1.md). NOT modelled: the point "
               "orders (PtOrderMap) behind CmpLineOrder - of region formation and ordering necessary conditions are checked "
               "on the dump (no overlap across regions of one pass; adjacent segments respect the position / fixedOrder / order rules "
               "of CmpLineOrder), each proved sound for the modelled loops (regions_do_not_overlap for the region-growing loop, "
@@ -70,12 +89,21 @@ RULE = ("corridor of free width W between two blocks (horizontal/vertical), m=2.
         "connectors centred onto one line) and a narrow one (width d/20 .. 2.5d, 2-4 connectors: reduced distances or given up "
         "after ten attempts), the narrow group with the higher or the lower connector ids (= processed first or last): a region "
         "must not inherit the reduced distance of an earlier one; the wide-enough promise is for the wide corridor's connectors "
-        "only. Every case additionally carries the hook dump of all regions (when the hook is in the tree). A case is non-trivial if at least two connectors share a collinear stretch before nudging.")
+        "only. Eighth family (tags segs-mix / segs-target-side / segs-source-side / segs-cp, for the segment tie): 2-4 small shapes "
+        "on a coarse grid, shapeBufferDistance 0/2/4, optionally a junction (fixed or free) and centre pins; 2-6 connectors whose "
+        "ends are points inside a shape (centre / close to a side), on its border, a pin, the junction or free points; "
+        "nudgeOrthogonalSegmentsConnectedToShapes on in half of the cases; target-side / source-side: 3-6 connectors from "
+        "scattered free points into ONE side of one small shape, their target (resp. source) ends 2-4 apart inside it; cp: one "
+        "or two checkpoints per connector on the line through the source, through the target, or anywhere (inside first / "
+        "middle / last segments, at bends), both orientations and directions of travel. This family runs in a forked child "
+        "process (a sanitizer abort in the library's debug-only block costs one case, reported as `assert sanitizer:...`). "
+        "Every case additionally carries the hook dump of all regions (when the hook is in the tree). A case is non-trivial if at least two connectors share a collinear stretch before nudging.")
 TRUSTED_BASE = ["Lean 4.33 kernel", "axioms: propext, Classical.choice, Quot.sound", "Lean compiler for the driver",
                 "the guarded hook in orthogonal.{h,cpp} (copies values out, changes nothing) and harness/c10_regions.h",
                 "tools/cpp2lean + clang AST (job nudgek)", "Model.NudgeRegion.roundDouble = IEEE round-to-nearest-even (x86-64 SSE2, no FMA contraction)",
-                "harness/c10.cpp generator (wide-enough construction) + hex-float import"]
-ASSUMPTIONS = ["integer scene coordinates", "end points are free points (no shapes / pins at the ends)"]
+                "harness/c10.cpp generator (wide-enough construction) + hex-float import",
+                "harness/c10_segs.h: Router subclass reading displayRoute()/checkpointsOnRoute/m_obstacles at the start of each nudging pass (virtual shouldContinueTransactionWithProgress)"]
+ASSUMPTIONS = ["integer scene coordinates", "route-level clauses: end points are free points except in the families shape-ends and segs-*"]
 
 ROOT = Path(__file__).resolve().parent.parent.parent
 DRV_CLASSES = {"C10-opt-final-nudge": "opt-final-nudge", "C10-narrow-sep": "narrow-sep", "C10-cp-disp": "cp-disp", "C10-cp-disp-unify": "cp-disp-unify",
